@@ -60,7 +60,7 @@ def tla_set(items):
 
 # mirrors Scen(i) of CacheMC.tla: (write_through, latency table index)
 SCENARIOS = {1: (False, 0), 2: (True, 0), 3: (False, 1), 4: (True, 1), 5: (False, 2), 6: (True, 2),
-             7: (False, 3), 8: (True, 3)}
+             7: (False, 3), 8: (True, 3), 9: (True, 1)}
 # short TLC runs: C1 compiler only, few GC threads (start-up dominates)
 LIGHT_JVM = {"_JAVA_OPTIONS": "-XX:TieredStopAtLevel=1 -XX:ParallelGCThreads=2 -XX:CICompilerCount=1"}
 
@@ -173,15 +173,21 @@ def name_unexplained(runs, verdicts, known_dev):
     bad = [tid for tid, (v, pos, taint) in verdicts.items() if v.startswith("PROP:") and not taint]
     if not bad:
         return
-    v2, _, _ = validate([runs.traces[tid - 1] for tid in bad], sorted(set(REAL_DEVS) | set(known_dev)),
-                        "C16_trace_name", parallel=1, chunk=len(bad))
-    for tid in bad:
-        if tid in v2 and v2[tid][0] == verdicts[tid][0] and v2[tid][2]:
-            verdicts[tid] = (verdicts[tid][0], verdicts[tid][1], v2[tid][2])
+    missing = [r for r in REAL_DEVS if r not in known_dev]
+    trials = [[r] for r in missing] + ([missing] if len(missing) > 1 else [])
+    for extra in trials:       # one formerly known deviation at a time, then all of them
+        bad = [tid for tid in bad if not verdicts[tid][2]]
+        if not bad:
+            break
+        v2, _, _ = validate([runs.traces[tid - 1] for tid in bad], sorted(set(extra) | set(known_dev)),
+                            "C16_trace_name", parallel=1, chunk=len(bad))
+        for tid in bad:
+            if tid in v2 and v2[tid][0] == verdicts[tid][0] and v2[tid][2]:
+                verdicts[tid] = (verdicts[tid][0], verdicts[tid][1], v2[tid][2])
 
 
 FAMILY_REAL_DEVS = {"c16_softttl": ("coalesced_miss_returns_none",),
-                    "c16_tiered": ("tier_promotion_overwrites_newer_write",),
+                    "c16_tiered": ("tier_promotion_overwrites_newer_write", "l1_put_rewrites_backing_late"),
                     "c16_pagecache": ("load_inserts_without_recheck", "load_overwrites_dirty_page")}
 
 
@@ -193,10 +199,16 @@ def name_unexplained_family(mod, runs, verdicts, dev, label):
     bad = [tid for tid, (v, pos, taint) in verdicts.items() if v.startswith("PROP:") and not taint]
     if not bad:
         return
-    v2, _, _ = mod.validate([runs.traces[tid - 1] for tid in bad], label, sorted(set(real) | set(dev)))
-    for tid in bad:
-        if tid in v2 and v2[tid][0] == verdicts[tid][0] and v2[tid][2]:
-            verdicts[tid] = (verdicts[tid][0], verdicts[tid][1], v2[tid][2])
+    missing = [r for r in real if r not in dev]
+    trials = [[r] for r in missing] + ([missing] if len(missing) > 1 else [])
+    for extra in trials:       # one formerly known deviation at a time, then all of them
+        bad = [tid for tid in bad if not verdicts[tid][2]]
+        if not bad:
+            break
+        v2, _, _ = mod.validate([runs.traces[tid - 1] for tid in bad], label, sorted(set(extra) | set(dev)))
+        for tid in bad:
+            if tid in v2 and v2[tid][0] == verdicts[tid][0] and v2[tid][2]:
+                verdicts[tid] = (verdicts[tid][0], verdicts[tid][1], v2[tid][2])
 
 
 def judge(chk, runs, verdicts, drifts, known_dev=None):
@@ -234,6 +246,56 @@ def random_prog(rng, K, nprocs, nops, kinds, gaps, keysets=None):
 
 
 KINDS_W = ("get", "get", "get", "put", "put", "put", "del", "inv", "flush", "invall")
+
+
+def race_cases(rng, quick):
+    """Directed overlap grids (code -> spec): two or three overlapping put()s to ONE key racing a miss-fill of
+    that key, with the key leaving the cache in between (invalidate, or eviction at capacity 1 by a put / a
+    miss-fill of another key), for all nine policies; plus the write-back variant with a flush in flight.
+    Small time grids around the window "fetch returns after the first write landed, before the last one"."""
+    out = []
+    lats = [LATS[1]] if quick else [LATS[1], LATS[0], LATS[2], LATS[3], {"CL": 1, "RL": 2, "WL": 5, "DL": 3}]
+    ticks = (1_000_000,) if quick else TICKS
+    n = 0
+    for lat in lats:
+        bs = (1, 2) if quick else (1, 2, 3)
+        rs = (1, 2) if quick else (0, 1, 2, 3)
+        gs = (0, 1) if quick else (0, 1, 2)
+        for pol in pol9.POLICIES:
+            for rem in (["inv", 1], ["put", 2], ["get", 2]):
+                # T1: two overlapping write-through puts, removal, get
+                for b in bs:
+                    for r in rs:
+                        for g in gs:
+                            n += 1
+                            cfg = world_cfg(K=2, cap=1, wt=True, pol=pol, lat=lat, pre=[101, 102],
+                                            tick_ns=ticks[n % len(ticks)], seed=n)
+                            out.append((cfg, [[["put", 1, 0]], [["put", 1, b]], [rem + [r], ["get", 1, g]]],
+                                        "two_puts_removal_fill"))
+                # T3: three overlapping puts
+                for r in ((2,) if quick else (1, 2, 3, 4)):
+                    for g in gs:
+                        if quick and rem[0] != "inv" and (n + r + g) % 3:
+                            continue
+                        n += 1
+                        cfg = world_cfg(K=2, cap=1, wt=True, pol=pol, lat=lat, pre=[101, 102],
+                                        tick_ns=ticks[n % len(ticks)], seed=n)
+                        out.append((cfg, [[["put", 1, 0]], [["put", 1, 1]], [["put", 1, 2]],
+                                          [rem + [r], ["get", 1, g]]], "three_puts_removal_fill"))
+            # T2: write-back, a flush of the key in flight, a second put, eviction, get (capacity 1 and 2)
+            for rem in (["put", 2], ["get", 2]):
+                for f in (0, 1):
+                    for b in (1, 2):
+                        for r in (1, 3):
+                            for g in (0, 1):
+                                if quick and rng.random() < 0.8:
+                                    continue
+                                n += 1
+                                cfg = world_cfg(K=2, cap=1 + (n % 2), wt=False, pol=pol, lat=lat, pre=[101, 102],
+                                                tick_ns=ticks[n % len(ticks)], seed=n)
+                                out.append((cfg, [[["put", 1, 0], ["flush", 0, f]], [["put", 1, b]],
+                                                  [rem + [r], ["get", 1, g]]], "wb_flush_put_evict_fill"))
+    return out
 
 
 def random_case(rng, i):
@@ -363,6 +425,14 @@ def run(tier, seed, replay=None):
                          ("clean_3procs", dict(scens=(3, 2), nops=(1, 1, 1)))):
             jobs[name] = pool.submit(job, f"C16_mc_{name}", "CacheMC.tla", mc_consts(**kw), invariants=INVS,
                                      view="View", timeout=6000, workers=6)
+    # two overlapping puts + removal + miss-fill of one key: three clients, four operations
+    race_kw = dict(K=1, cap=1, scens=(9,), nops=(1, 1, 2), kinds=("get", "put", "inv"), pre=(1,))
+    jobs["clean_race_k1"] = pool.submit(job, "C16_mc_clean_race", "CacheMC.tla", mc_consts(**race_kw),
+                                        invariants=INVS, view="View", timeout=3000, workers=4)
+    if not quick:
+        jobs["clean_race_k2"] = pool.submit(job, "C16_mc_clean_race2", "CacheMC.tla",
+                                            mc_consts(**dict(race_kw, K=2, pre=(1, 2))),
+                                            invariants=INVS, view="View", timeout=6000, workers=6)
     for dev, (invs, sc) in DEVIATIONS.items():
         jobs[f"dev_{dev}"] = pool.submit(job, f"C16_mc_dev_{dev[:12]}", "CacheMC.tla",
                                          mc_consts(scens=(sc,), dev=[dev]), invariants=INVS, view="View",
@@ -392,6 +462,10 @@ def run(tier, seed, replay=None):
                           mc_consts(scens=(1, 2) if quick else (1, 2, 3, 4), pol="LRU", dev=known_dev,
                                     nops=(1, 1, 0) if quick else (2, 1, 0)),
                           timeout=3000, extra=["-dump", str(gen_wd / "states")], workers=2, light=quick)
+    gen2_wd = tlc.workdir("C16_gen_race")
+    gen2_kw = dict(race_kw, pol="LRU", dev=known_dev) if quick else dict(race_kw, K=2, pre=(1, 2), pol="LRU", dev=known_dev)
+    gen2_job = pool.submit(job, "C16_gen_race", "CacheMC.tla", mc_consts(**gen2_kw),
+                           timeout=6000, extra=["-dump", str(gen2_wd / "states")], workers=2)
 
     soft_jobs = soft.submit(pool, quick)
     soft_runs = soft.Runs(chk)
@@ -413,15 +487,25 @@ def run(tier, seed, replay=None):
         cfg, prog, regime = random_case(rng, i)
         runs.execute(cfg, prog, f"random:{regime}")
 
+    n_race = 0
+    for cfg, prog, regime in race_cases(rng, quick):
+        runs.execute(cfg, prog, f"race:{regime}")
+        n_race += 1
+    chk.extra["directed_race_programs"] = n_race
+
     for i in range(400 if quick else 6000):
         cfg, prog = soft.random_case(rng, i)
         soft_runs.execute(cfg, prog, "random")
     for i in range(330 if quick else 6000):
         cfg, prog = tiered.random_case(rng, i)
         tier_runs.execute(cfg, prog, "random")
+    for cfg, prog in tiered.race_cases(quick):
+        tier_runs.execute(cfg, prog, "race:two_puts_removal_fill")
     for i in range(240 if quick else 4000):
         cfg, prog = pagec.random_case(rng, i)
         pc_runs.execute(cfg, prog, "random")
+    for cfg, prog in pagec.race_cases(quick):
+        pc_runs.execute(cfg, prog, "race:dirty_victim_write_read_same_page")
     _t(chk, f"random executions done: {len(runs.traces)} + soft-ttl {len(soft_runs.traces)} + multi-tier "
             f"{len(tier_runs.traces)} + page-cache {len(pc_runs.traces)}")
     n_early = len(runs.traces)
@@ -498,43 +582,47 @@ def run(tier, seed, replay=None):
     # -- 2b. programs enumerated by TLC, executed on the real CachedStore ----
     n_model = 0
     state_checked = matched = 0
-    res = gen_job.result()
-    chk.add_tlc("program enumeration", res, count=False,
-                note="terminal states enumerate client programs (explicit LRU, deviations as in the code)")
-    terms = {}
-    for st in tlc.parse_dump(gen_wd / "states.dump", must_contain="heap = {}"):
-        prog = prog_from_plog(st["plog"])
-        terms[json.dumps([st["sc"], prog])] = st
-    (gen_wd / "states.dump").unlink(missing_ok=True)
-    keys = sorted(terms)
-    chk.extra["model_programs_total"] = len(keys)
-    capn = 300 if quick else 8000
-    if len(keys) > capn:
-        keys = rng.sample(keys, capn)
-    else:
-        chk.exhaustive = True
-    for j, pk in enumerate(keys):
-        sc, prog = json.loads(pk)
-        st = terms[pk]
-        w = runs.execute(scen_cfg(sc, K=2, cap=1, pol="LRU", pre=pre_values(2, [1])), prog, "model_program")
-        if w is None:
-            continue
-        chk.replays += 1
-        n_model += 1
-        # state-checked replay: the model's terminal state against the real final state
-        state_checked += 1
-        fin = w.steps[-1]
-        model = (list(st["s"]["cache"]), sorted(st["s"]["dirty"]), list(st["s"]["back"]), list(st["s"]["ps"]["q1"]),
-                 sorted((dict(r)["k"], dict(r)["ret"]) for r in st["reads"]))
-        code = (fin["cache"], [k for k in range(1, 3) if fin["dirty"][k - 1]], fin["back"], fin["q1"],
-                sorted((x["k"], x["ret"]) for x in w.steps if x["kind"] == "get" and x["last"]))
-        if model == code:
-            matched += 1
-        else:
-            chk.note_drift(f"model program {prog} scenario={sc}: terminal state model={model} code={code}")
-        # the same program under another policy (cap 1: the victim is forced, the policy bookkeeping is not)
-        runs.execute(scen_cfg(sc, K=2, cap=1, pol=pol9.POLICIES[j % 9], pre=pre_values(2, [1])), prog,
-                     "model_program")
+    total_programs = 0
+    for gname, gjob, gwd, gK, gpre, capn in (("client programs", gen_job, gen_wd, 2, [1], 300 if quick else 8000),
+                                             ("overlapping-put race programs", gen2_job, gen2_wd, gen2_kw["K"],
+                                              list(gen2_kw["pre"]), 150 if quick else 4000)):
+        res = gjob.result()
+        chk.add_tlc(f"program enumeration ({gname})", res, count=False,
+                    note="terminal states enumerate client programs (explicit LRU, deviations as in the code)")
+        terms = {}
+        for st in tlc.parse_dump(gwd / "states.dump", must_contain="heap = {}"):
+            prog = prog_from_plog(st["plog"])
+            terms[json.dumps([st["sc"], prog])] = st
+        (gwd / "states.dump").unlink(missing_ok=True)
+        keys = sorted(terms)
+        total_programs += len(keys)
+        if len(keys) > capn:
+            keys = rng.sample(keys, capn)
+        elif gK == 2 and gname == "client programs":
+            chk.exhaustive = True
+        for j, pk in enumerate(keys):
+            sc, prog = json.loads(pk)
+            st = terms[pk]
+            w = runs.execute(scen_cfg(sc, K=gK, cap=1, pol="LRU", pre=pre_values(gK, gpre)), prog, "model_program")
+            if w is None:
+                continue
+            chk.replays += 1
+            n_model += 1
+            # state-checked replay: the model's terminal state against the real final state
+            state_checked += 1
+            fin = w.steps[-1]
+            model = (list(st["s"]["cache"]), sorted(st["s"]["dirty"]), list(st["s"]["back"]),
+                     list(st["s"]["ps"]["q1"]), sorted((dict(r)["k"], dict(r)["ret"]) for r in st["reads"]))
+            code = (fin["cache"], [k for k in range(1, gK + 1) if fin["dirty"][k - 1]], fin["back"], fin["q1"],
+                    sorted((x["k"], x["ret"]) for x in w.steps if x["kind"] == "get" and x["last"]))
+            if model == code:
+                matched += 1
+            else:
+                chk.note_drift(f"model program {prog} scenario={sc}: terminal state model={model} code={code}")
+            # the same program under another policy (cap 1: the victim is forced, the policy bookkeeping is not)
+            runs.execute(scen_cfg(sc, K=gK, cap=1, pol=pol9.POLICIES[j % 9], pre=pre_values(gK, gpre)), prog,
+                         "model_program")
+    chk.extra["model_programs_total"] = total_programs
     chk.extra["model_programs_executed"] = n_model
     chk.extra["state_checked_replays"] = {"total": state_checked, "matched": matched}
 
